@@ -11,7 +11,7 @@ C25 model: the filer's HTTP write path as the Go code implements it (core Lean o
 A request body is `avail` (the bytes the reader delivers) followed by EOF, or — `fails` — by a read error.
 A read error that the upload loop meets is remembered (`readErr`), reported as "read input: …" after the
 in-flight uploads finished, answered 499 by autoChunk, and the chunks uploaded so far are handed to
-`Filer.DeleteChunks` (third component of `handle`); saveMetaData is not reached (repair f7329273 of the defect
+`Filer.DeleteChunks` (third component of `handle`); saveMetaData is not reached (repair c68165d2 of the defect
 uploadReaderToChunks/read-error-treated-as-eof: before it the loop just ended, as at EOF).
 Bytes, offsets and sizes are `Nat`.  A chunk's `gen` is the number of the request that uploaded it; it
 stands for the chunk's mtime (`time.Now()` at upload: requests are sequential, so later request ⇒ later
